@@ -206,6 +206,14 @@ def handleC08 (op : String) (args : List String) (ctx : Ctx) (e : Expr) (res : L
         if outside && k != "c" then some s!"fail open-outside-range model={joinSp m}"
         else if sameOut m res then some (if outside then "ok outside" else "ok inside") else some s!"disagree model={joinSp m}"
       | _ => none
+  | "c08.sched", d :: _ =>
+    match d.toInt?, pRanges res with
+    | some d, some rs =>
+      let m := runM (match daySchedule ctx e d with | .ok s => .ok (showRanges s) | .error p => .error p)
+      let outside := d < dateStart || d ≥ dateEnd
+      if outside && rs != [⟨0, 1440, .closed, []⟩] then some s!"fail schedule-not-closed-outside-range model={joinSp m}"
+      else if sameOut m res then some (if outside then "ok sched-outside" else "ok sched-inside") else some s!"disagree model={joinSp m}"
+    | _, _ => none
   | "c08.iter", f :: t :: _ =>
     match parseInstant f, parseInstant t with
     | some f, some t =>
